@@ -401,6 +401,11 @@ def reshape(tens, shape, eps=1e-16, rmax=sys.maxsize):
                 core = tn.reshape(
                     core, [core.shape[0], core.shape[1]*core.shape[2], -1, core.shape[-1]])
 
+        if idx_shape == len(shape):
+            # the new shape is exhausted: the cores that are left have only modes of size one and are absorbed into the last core
+            for c in cores[idx:]:
+                cores_new[-1] = tn.einsum('ijkl,lm->ijkm', cores_new[-1], c[:, 0, 0, :])
+
         idx_shape += 1
         while idx_shape < len(shape):
             cores_new.append(
@@ -448,6 +453,11 @@ def reshape(tens, shape, eps=1e-16, rmax=sys.maxsize):
 
                 core = tn.einsum('ijk,klm->ijlm', core, cores[idx])
                 core = tn.reshape(core, [core.shape[0], -1, core.shape[-1]])
+
+        if idx_shape == len(shape):
+            # the new shape is exhausted: the cores that are left have only modes of size one and are absorbed into the last core
+            for c in cores[idx:]:
+                cores_new[-1] = tn.einsum('ijk,kl->ijl', cores_new[-1], c[:, 0, :])
 
         idx_shape += 1
         while idx_shape < len(shape):
